@@ -371,3 +371,28 @@ def words(sigma: list[str], maxlen: int):
     for _ in range(maxlen):
         layer = [w + c for w in layer for c in sigma]
         yield from layer
+
+
+def selftest() -> int:
+    """Bind the automaton construction to Python's own matcher: for a fixed
+    list of patterns (all constructs the checks rely on, incl. the '$' before a
+    final newline, '\\Z', '^', DOTALL groups, lazy and greedy repeats, classes)
+    every word up to length 4 over a 5-letter alphabet must get the same
+    verdict from Lang and from re.match / re.fullmatch.  Returns the number of
+    comparisons; raises HarnessGap on the first disagreement."""
+    pats = [r"^(a)$", r"^(a[^/]*)$|^(b.*)$", r"(?:a\.b)", r"(?:a.*/)?b", r"a$", r"a\Z", r"^a.*$", r"(?s:a.*b)", r"a.*?b", r"[ab]+/?", r"[^a/]*b",
+            r"(?:a|ab)(?:c|bcd)?", r"a{1,3}b", r"(?:.*/)?[^/]*\.a", r"\*\\", r"(a|b)*abb", r"^$", r"\n?a", r"a\n$", r"(?:)"]
+    sigma = ["a", "b", "/", "\n", "."]
+    n = 0
+    for pat in pats:
+        for flags in (0, re.DOTALL):
+            nfa = from_regex(pat, flags)
+            rx = re.compile(pat, flags)
+            for mode, fn in (("match", rx.match), ("fullmatch", rx.fullmatch)):
+                lang = Lang(nfa, mode)
+                for w in words(sigma, 4):
+                    n += 1
+                    if lang.accepts(w) != bool(fn(w)):
+                        raise HarnessGap(f"automaton self-test: pattern {pat!r} flags {flags} mode {mode} word {w!r}: "
+                                         f"Lang says {lang.accepts(w)}, re says {bool(fn(w))}")
+    return n
